@@ -12,7 +12,7 @@ enabled extensions — table rows, `[^1]` and `[^1]: …`, `*[A]: b`, `!!! note`
 fences — and none of it is interpreted.  Fenced blocks with extensions are in `Props/C03Fenced.lean`.
 
 Only property statements live here; the vocabulary is in `Spec/CodeLaw.lean`, the helper lemmas in
-`Lemmas/CodeX.lean`, `Lemmas/CodeXTree.lean`, `Lemmas/CodeXSpan.lean`.
+`Lemmas/CodeX.lean`, `Lemmas/CodeXTree.lean`, `Lemmas/CodeXSpan.lean`, `Lemmas/CodeXPara.lean`.
 
 Why nothing leaks (what the proofs follow):
 * block parser: `CodeBlockProcessor` (80) is asked before table (75), deflist (25), footnote (17), abbr (16); of the
@@ -33,9 +33,10 @@ Two hypotheses beyond those of `Props/C03.lean`:
 
 Part 1.  `C03X_block_top`, `C03X_block_extensions_inert`.
 Part 2.  `C03X_span_top`, `C03X_span_extensions_inert`; what `attr_list` does do next to a span: `C03X_span_attr_list_boundary`.
+Part 3.  `C03X_block_after_paragraph`, `C03X_block_after_paragraph_inert`.
 -/
 import MdVerif.Props.C03
-import MdVerif.Lemmas.CodeXSpan
+import MdVerif.Lemmas.CodeXPara
 
 namespace MdVerif.CodeX
 open Py Block CodeLaw Pipeline PipelineX
@@ -180,5 +181,54 @@ theorem C03X_span_attr_list_boundary :
     convertX { attrList := true } {} "a `x`{: #i } b".toList = .ok "<p>a <code id=\"i\">x</code> b</p>".toList ∧
     convertX { attrList := true } {} "a `x{: #i }` b".toList = .ok "<p>a <code>x{: #i }</code> b</p>".toList := by
   decide +kernel
+
+/-! ### Part 3: whatever precedes the code block -/
+
+/-- **… whatever precedes it: after a paragraph, any extensions.**  A line of text `p` (letters and spaces, starting
+    with a letter), a blank line, then the indented code block of `C03X_block_top`: with any subset `x` of the eleven
+    modelled extensions enabled the paragraph comes out as `<p>p</p>` and the code block exactly as in
+    `C03X_block_top` — neither the paragraph before it nor the extensions change anything in it.  In particular the
+    paragraph is not taken for the term of a definition list when the code starts with `:   d`, nor for the header row
+    of a table when the code starts with `|---|---|`, and an attribute list `{: #i }` on the first code line is not
+    applied to the paragraph. -/
+theorem C03X_block_after_paragraph (x : Exts) (tab : Nat) (htab : 0 < tab) (fmt : Ser.Fmt) (p : Str) (first : List Str)
+    (more : List (Nat × List Str)) (hp : isSpanContext p = true) (hpne : p ≠ [])
+    (h1 : isCodeRun first = true) (h2 : more.all (fun er => isCodeRun er.2) = true)
+    (hadm : (x.admonition && admNonAscii (paraCodeSource tab p first more ++ ['\n', '\n'])) = false) :
+    convertX x { tab := tab, fmt := fmt } (paraCodeSource tab p first more) =
+      .ok ("<p>".toList ++ p ++ "</p>\n<pre><code>".toList ++ Code.codeEscape (trimSpec first more) ++
+        "\n</code></pre>".toList) :=
+  convertX_paraCode x tab htab fmt p first more hp hpne h1 (fun er her => List.all_eq_true.1 h2 er her) hadm
+
+-- the hypotheses on a concrete input: every extension on; the code starts with a table, then an attribute list; after
+-- two blank lines a footnote definition, an abbreviation definition for a word of the paragraph, an admonition and a
+-- definition with the toc marker and a wiki link
+example : 0 < 4 ∧ isSpanContext "Some HTML text".toList = true ∧ "Some HTML text".toList ≠ [] ∧
+    isCodeRun ["| a | b |  ".toList, "|---|---|".toList, "{: #i }".toList] = true ∧
+    [(1, ["[^1]: n".toList, "*[HTML]: x".toList, "!!! note".toList, ":   d [TOC] [[w]]".toList])].all
+      (fun er => isCodeRun er.2) = true ∧
+    (everyExt.admonition && admNonAscii (paraCodeSource 4 "Some HTML text".toList
+      ["| a | b |  ".toList, "|---|---|".toList, "{: #i }".toList]
+      [(1, ["[^1]: n".toList, "*[HTML]: x".toList, "!!! note".toList, ":   d [TOC] [[w]]".toList])] ++ ['\n', '\n'])) = false := by
+  decide +kernel
+-- … the source spelt out, and what the model computes there with every extension on (by the kernel, not by the theorem)
+example : paraCodeSource 4 "Some HTML text".toList ["| a | b |  ".toList, "|---|---|".toList, "{: #i }".toList]
+      [(1, ["[^1]: n".toList, "*[HTML]: x".toList, "!!! note".toList, ":   d [TOC] [[w]]".toList])] =
+    "Some HTML text\n\n    | a | b |  \n    |---|---|\n    {: #i }\n\n\n    [^1]: n\n    *[HTML]: x\n    !!! note\n    :   d [TOC] [[w]]".toList := by
+  decide +kernel
+example : convertX everyExt {}
+      "Some HTML text\n\n    | a | b |  \n    |---|---|\n    {: #i }\n\n\n    [^1]: n\n    *[HTML]: x\n    !!! note\n    :   d [TOC] [[w]]".toList =
+    .ok "<p>Some HTML text</p>\n<pre><code>| a | b |  \n|---|---|\n{: #i }\n\n\n[^1]: n\n*[HTML]: x\n!!! note\n:   d [TOC] [[w]]\n</code></pre>".toList := by
+  decide +kernel
+
+/-- the same as a non-interference statement -/
+theorem C03X_block_after_paragraph_inert (x : Exts) (tab : Nat) (htab : 0 < tab) (fmt : Ser.Fmt) (p : Str)
+    (first : List Str) (more : List (Nat × List Str)) (hp : isSpanContext p = true) (hpne : p ≠ [])
+    (h1 : isCodeRun first = true) (h2 : more.all (fun er => isCodeRun er.2) = true)
+    (hadm : (x.admonition && admNonAscii (paraCodeSource tab p first more ++ ['\n', '\n'])) = false) :
+    convertX x { tab := tab, fmt := fmt } (paraCodeSource tab p first more) =
+      Pipeline.convert { tab := tab, fmt := fmt } (paraCodeSource tab p first more) := by
+  rw [C03X_block_after_paragraph x tab htab fmt p first more hp hpne h1 h2 hadm, ← convertX_core,
+    C03X_block_after_paragraph {} tab htab fmt p first more hp hpne h1 h2 rfl]
 
 end MdVerif.CodeX
